@@ -133,8 +133,17 @@ func Build(filename string, src []byte, roots []string, seed int64, k Knobs) (b 
 				if usedX["C"] {
 					t.imports["C"] = "C"
 				}
-				if gd.Doc != nil {
-					f.CgoPreamble(gd.Doc.Text())
+				// the preamble is the doc comment of the import "C" declaration (the main parse drops comments)
+				if cf, err := parser.ParseFile(token.NewFileSet(), filename, src, parser.ImportsOnly|parser.ParseComments); err == nil {
+					for _, cd := range cf.Decls {
+						if cg, ok := cd.(*ast.GenDecl); ok && cg.Tok == token.IMPORT && cg.Doc != nil && len(cg.Specs) == 1 && cg.Specs[0].(*ast.ImportSpec).Path.Value == `"C"` {
+							// every comment of the group verbatim: text that starts with // or /* is rendered as it is
+							for _, cm := range cg.Doc.List {
+								f.CgoPreamble(cm.Text)
+								t.hit("cgo.preamble")
+							}
+						}
+					}
 				}
 				if !usedX["C"] {
 					f.Anon("C")
